@@ -98,7 +98,7 @@ EXPORT errno_t _memmove32_s_chk(uint32_t *dest, rsize_t dmax,
     }
     CHK_DEST_MEM_NULL("memmove32_s")
     CHK_DMAX_MEM_ZERO("memmove32_s")
-    smax = slen * 4;
+    smax = SAFEC_MUL_SAT(slen, 4);
     if (destbos == BOS_UNKNOWN) {
         CHK_DMAX_MEM_MAX("memmove32_s", RSIZE_MAX_MEM)
         BND_CHK_PTR_BOUNDS(dest, dmax);
